@@ -58,6 +58,9 @@ def run(ctx):
                       "stmt+) on every sequence of up to 4 lines (thorough: 5) drawn from {if, else if, else, fi, for, "
                       "while, done, command}, in four layouts (plain, `; then` / `; do` spelling, every line indented, no "
                       "final newline)")
+    ctx.rule("R14-9", "`for` binds each word: the value run_exp_for stores with set_env is the one the next `$var` expansion "
+                      "reads - set_env writes the environment when the name is exported and the expansion consults the "
+                      "environment first (the analyses of C09 R09-5 / R09-7)")
     ctx.rule("R14-4", "run_exp_if leaves at the first passed branch; a body runs only under test_pass; `while` calls its "
                       "head test on every iteration; `for` calls set_env(var, value) before each body run, iterating forward")
     gpath = os.path.join(ctx.root, "src", "parsers", "grammar.pest")
@@ -73,6 +76,7 @@ def run(ctx):
         flag_rules(ctx, crate)
         order_rules(ctx, crate)
         flags_used_rule(ctx, crate)
+        for_binding_rule(ctx, crate)
 
 
 def anchor_rule(ctx, crate, g):
@@ -438,3 +442,23 @@ def balance_rule(ctx, g):
             layout, _render(seq, layout), "accepts" if got else "rejects", "accepts" if want else "rejects")
     ctx.ob("R14-8", "parsers::grammar", "grammar and reference recogniser agree on %d scripts (<= %d lines, 4 layouts)" % (n, maxlen),
            ok, key="R14-8|grammar|balance-agreement", detail=detail)
+
+
+def for_binding_rule(ctx, crate):
+    from . import c09
+    n0 = len(ctx.obligations)
+    v0 = set(ctx.violations)
+    c09.precedence_rule(ctx, crate, "R14-9")
+    sub = type(ctx)("C14", ctx.tier, [crate], ctx.root)
+    c09.api_rules(sub, crate)
+    for o in sub.obligations:
+        if o["rule"] == "R09-5":
+            o["rule"] = "R14-9"
+            if o.get("key"):
+                o["key"] = "R14-9" + o["key"][5:]
+            ctx.obligations.append(o)
+    for k, v in sub.violations.items():
+        if v["rule"] == "R09-5":
+            v["rule"] = "R14-9"
+            v["key"] = "R14-9" + k[5:]
+            ctx.violations[v["key"]] = v
